@@ -10,9 +10,13 @@ CLAIMED = {
     "C20": ("Coq: kernel-checked equality of regenerated helper/class tables (translator tie)",
             "Theorem regen_spec over the tables regenerated from helper_methods.py, nml.py, the XSD, __version__.py, "
             "writers.py and regenerate-nml.sh on every run; the quantifier (all class/helper and class/complex-type pairs) is "
-            "finite, so the kernel computation is the proof; regen_ok <-> regen_spec is proved generically.",
+            "finite, so the kernel computation is the proof; regen_ok <-> regen_spec is proved generically. Whole-file part: "
+            "generateDS is re-run on every run with the command line read from regenerate-nml.sh in a scratch copy of the tree's "
+            "sources and all ~3850 units (generated and helper methods, class bases, module functions, imports) of the regenerated "
+            "module are compared with the shipped one in Coq (full_ok <-> full_spec proved generically).",
             "Trusted: Coq kernel + vm_compute, tr_helpers.py (ast.unparse normal form; generateDS interpolation re-enacted), "
-            "the generateDS template-method name list. No axioms.",
+            "the generateDS template-method name list, tr_regen.py (sha256 of docstring/annotation-free ast.dump per unit; one named "
+            "generator-version normalisation), the installed generateDS itself. No axioms.",
             "DESIGN.md §6 C20"),
 }
 
